@@ -44,7 +44,7 @@ impl Sess {
     /// `nz`: zeros on the x / y axis are handed to the library as -0.0 (a reflected operand)
     pub fn def_nz(&mut self, name: &str, mp: &IMp, k: i32, rel: &str, nz: (bool, bool)) {
         let g64 = run::to_geo_nz::<f64>(mp, k, nz);
-        let g32 = run::to_geo_nz::<f32>(mp, if k >= 1000 { k } else { k.clamp(-60, 60) }, nz);
+        let g32 = run::to_geo_nz::<f32>(mp, if k >= 1000 { k } else { k.clamp(-110, 100) }, nz);
         let mag = run::magnitude(&[mp]);
         self.mag = self.mag.max(mag);
         let s = run::snap(&g64, k, mag);
@@ -277,6 +277,10 @@ pub fn canon_pair(fam: &str, kmax: i64, rng: &mut Rng) -> (Vec<(Vec<P>, Vec<Vec<
     }
     if fam == "latraw" {
         return gen::latraw_pair(rng);
+    }
+    if fam == "combx" {
+        let (x, y) = gen::combx_pair(rng);
+        return if rng.chance(1, 2) { (x, y) } else { (y, x) };
     }
     loop {
         let f = gen::family(fam, kmax, rng);
@@ -556,7 +560,9 @@ pub fn sess_f32(sid: u64, fam: &str, seed: u64, o: &Opts) -> Sess {
     s.touch = fam.starts_with("big");
     let fr0 = frame_for(fam, &mut rng);
     // both float types at a random power-of-two scale (exact in f32 and f64 alike)
-    let fr = if fr0 == 0 && !fam.starts_with("big") { *rng.pick(&[0i32, 0, 0, -10, -20, -30, -45, 10, 20, 40]) } else { fr0 };
+    // (down to 2^-100 and up to 2^90: still normal, exactly representable f32 numbers, but products of
+    //  two coordinate differences leave the f32 range - nothing may be decided in f32 arithmetic there)
+    let fr = if fr0 == 0 && !fam.starts_with("big") { *rng.pick(&[0i32, 0, 0, -10, -20, -30, -45, 10, 20, 40, -80, -100, 60, 90]) } else { fr0 };
     let (a, b) = loop {
         let (ca, cb) = canon_pair(fam, o.kmax, &mut rng);
         let a = gen::present(&ca, gen::RANDOMISED, &mut rng);
@@ -584,7 +590,7 @@ pub fn sess_ptype(sid: u64, fam: &str, seed: u64, o: &Opts, f32_: bool) -> Sess 
     let mut s = Sess::new(sid, if f32_ { "pf32" } else { "pf64" }, fam, seed);
     s.touch = fam.starts_with("big");
     let fr0 = frame_for(fam, &mut rng);
-    let fr = if fr0 == 0 && !fam.starts_with("big") { *rng.pick(&[0i32, 0, -10, -20, 10, 20]) } else { fr0 };
+    let fr = if fr0 == 0 && !fam.starts_with("big") { *rng.pick(&[0i32, 0, -10, -20, 10, 20, -90, 70]) } else { fr0 };
     let (a, b) = loop {
         let (ca, cb) = canon_pair(fam, o.kmax, &mut rng);
         let a = gen::present(&ca, gen::RANDOMISED, &mut rng);
